@@ -164,6 +164,9 @@ func (db *DatabaseCollectionWithUser) importDoc(ctx context.Context, docid strin
 				if body == nil {
 					return nil, nil, false, nil, base.ErrEmptyDocument
 				}
+				// The current version may be a delete although the version that triggered the import was not, and vice versa
+				isDelete = doc.Deleted
+				newDoc.Deleted = isDelete
 
 				existingDoc = &sgbucket.BucketDocument{
 					Cas: doc.Cas,
